@@ -314,10 +314,23 @@ func c05Run(c *Ctx) {
 						run(c05Case{Fn: "ResolveResponse", Ref: ref, Root: "generic", Kind: nd.kind})
 					}
 				}
-				// dangling pointers: last token replaced, one token appended
+				// dangling pointers: last token replaced, one token appended, a member the node's type knows but the node does not have
 				bad1 := append(append([]string{}, nd.toks[:len(nd.toks)-1]...), "Missing")
 				bad2 := append(append([]string{}, nd.toks...), "nope")
-				for _, bad := range [][]string{bad1, bad2} {
+				bads := [][]string{bad1, bad2}
+				rawPtr := ""
+				for _, t := range nd.toks {
+					rawPtr += "/" + escTok(t)
+				}
+				if v, ok := ptrGet(c05Universe[du], rawPtr); ok {
+					m, _ := v.(map[string]interface{})
+					for _, unset := range []string{"not", "items", "additionalProperties", "additionalItems", "xml", "externalDocs", "schema", "get", "default", "title", "maximum"} {
+						if _, has := m[unset]; !has && !esc {
+							bads = append(bads, append(append([]string{}, nd.toks...), unset))
+						}
+					}
+				}
+				for _, bad := range bads {
 					for _, rm := range rootModes {
 						run(c05Case{Fn: fnFor[nd.kind], Ref: spell(rootURL, du, fragFor(bad, esc), spShort), Root: rm, Kind: "dangling-pointer"})
 					}
